@@ -27,7 +27,7 @@ PROPS = {
                 assumptions=["wholesale replacement by an older valid snapshot is out of scope, as the property says"]),
     "C06": dict(level="exploration", stages=[
                     dict(kind="sim", name="sink", engine="dbworld-audit,dbworld-conc", quick=24, thorough=600),
-                    dict(kind="sim", name="race", engine="dbworld-conc-free", race=True, instrumented=False, quick=10, thorough=240,
+                    dict(kind="sim", name="race", engine="dbworld-conc-free", race=True, instrumented=False, workers=8, quick=10, thorough=240,
                          env={"VERIF_GOMAXPROCS": "4", "GORACE": "halt_on_error=1 exitcode=66", "VERIF_PRINT_START": "1"})],
                 rule="one evaluation = one seeded history of authorised and denied calls with an audit sink that can fail (write error, short write, sync error) at a drawn record; distinct = distinct canonical event-log hash; non-trivial = executed at least one call",
                 assumptions=["sink is an in-memory io.Writer with Sync; the real audit.NewFile path is exercised in the concurrent stage"]),
@@ -45,7 +45,7 @@ PROPS = {
                 assumptions=["freshness is judged by version number over the stamp window of the refresh epoch (from the first overlapping call's invoke to the return)", "a hung poll request ends after 2 min like a transport timeout"]),
     "C12": dict(level="exploration", stages=[
                     dict(kind="sim", name="baton", engine="storeworld-live", quick=20, thorough=600),
-                    dict(kind="sim", name="race", engine="storeworld-race", race=True, instrumented=False, quick=12, thorough=240,
+                    dict(kind="sim", name="race", engine="storeworld-race", race=True, instrumented=False, workers=8, quick=12, thorough=240,
                          env={"VERIF_GOMAXPROCS": "4", "GORACE": "halt_on_error=1 exitcode=66", "VERIF_PRINT_START": "1"})],
                 rule=live_rule, probes_required=["read-judged"],
                 assumptions=["install order is taken from the sequence of cache documents (written under the store's lock right after each install)"]),
@@ -65,7 +65,7 @@ PROPS = {
                 assumptions=["staleness is compared in whole seconds with one second of slack at the boundary"]),
     "C14": dict(level="exploration", stages=[
                     dict(kind="sim", name="baton", engine="dbworld-conc", quick=20, thorough=600),
-                    dict(kind="sim", name="race", engine="dbworld-conc-free", race=True, instrumented=False, quick=12, thorough=240,
+                    dict(kind="sim", name="race", engine="dbworld-conc-free", race=True, instrumented=False, workers=8, quick=12, thorough=240,
                          env={"VERIF_GOMAXPROCS": "4", "GORACE": "halt_on_error=1 exitcode=66", "VERIF_PRINT_START": "1"})],
                 rule="one evaluation = one concurrent history (2-4 clients x 2-5 calls on 1-2 shared names, DB API or handlers) under a seeded baton schedule with park points at every mutex acquisition, audit write, WhoIs call and transport delivery/response, decided by porcupine against the map model with a final sequential read-out; second stage: the same workloads free-running under the race detector; distinct = distinct canonical event-log hash (schedule + results); non-trivial = at least one scheduling step",
                 probes_required=["lock-contention", "porcupine-ok"],
@@ -110,7 +110,8 @@ def run_property(ck, b, prop, cfg, tier, seed, replay, t0):
             binary = b.simtest(race=st.get("race", False), instrumented=st.get("instrumented", True))
             workers = st.get("workers", ck.NCPU)
             sums, crashes = ck.run_workers(binary, prop, seed, budget, workers, outdir,
-                                           extra_env=st.get("env"), engine=st.get("engine"))
+                                           extra_env=st.get("env"), engine=st.get("engine"),
+                                           runs_per_proc=(2000 if st.get("race") else None))
             tot = ck.merge(sums)
             tot["stage"] = st.get("name", st.get("engine", "sim"))
             totals.append(tot)
